@@ -188,6 +188,7 @@ class CallMixin:
         fi = vf.fi
         con = ex.contracts.get(fi.qualname)
         if con is not None and fi.qualname in ex.use_contract and not ex.ghost.get('__verifying__') == fi.qualname + '#top':
+            ex.funcs_by_contract.add(fi.qualname)
             return ex.apply_contract(con, fi, args, kwargs, node, self_cls=self_cls)
         hook = ex.ghost.get('__call_hooks__', {}).get(fi.qualname) or ex.call_hooks.get(fi.qualname)
         if hook is not None:
@@ -198,6 +199,7 @@ class CallMixin:
             raise Undecided(f'inlining depth exceeded at {fi.qualname}')
         if fi.kind in ('contextmanager', 'method_contextmanager'):
             return VCtxMgr(vf, args, kwargs)
+        ex.funcs_entered.add(fi.qualname)
         fr = Frame(fi, parent=vf.frame)
         fr.owner = owner if owner is not None else fi.cls
         fr.self_cls = self_cls if self_cls is not None else fi.cls
